@@ -168,8 +168,11 @@ def triangle_aspect_ratio(mesh : SurfaceMesh, name : str="aspect_ratio", persist
     else:
         ratio = ArrayAttribute(float, len(mesh.faces)) if dense else Attribute(float)
     for iF,F in enumerate(mesh.faces):
-        if len(F)!=3: ratio[iF] = -1 
+        if len(F)!=3:
+            ratio[iF] = -1.
+            continue
         ratio[iF] = geom.aspect_ratio(*(mesh.vertices[u] for u in F))
+    return ratio
 
 @allowed_mesh_types(SurfaceMesh)
 def parallel_transport_curvature(mesh : SurfaceMesh, PT:"SurfaceConnectionVertices", name : str="curvature", persistent : bool=True, dense : bool = True):
